@@ -585,6 +585,7 @@ func checkC03(e *Engine, r *Report) {
 			names = append(names, sdbS.Field(i).Name())
 		}
 		capReg, revReg := e.privateRegion(capFn), e.privateRegion(revFn)
+		revSG := revReg.Supergraph()
 		for i := 0; i < sdbS.NumFields(); i++ {
 			fv := sdbS.Field(i)
 			name := fv.Name()
@@ -639,6 +640,15 @@ func checkC03(e *Engine, r *Report) {
 					}
 					return fieldVar(v) == sf
 				}, ref)
+				// …and unconditionally: every return of RevertToSnapshot has passed this assignment (a restore skipped when some
+				// cheap summary — a size, a flag — looks unchanged keeps the reverted frame's writes)
+				if resOK {
+					for _, ret := range returnsOf(revFn) {
+						if !revSG.PassesOr(ret, st, nil) {
+							resOK, resWhy = false, "the restore of this field is conditional: a path through RevertToSnapshot returns without assigning it"
+						}
+					}
+				}
 			})
 			r.Check(resOK, key+" › restored by RevertToSnapshot", e.Pos(revFn.Pos()), resWhy, resWhy+" (field mutated e.g. by "+ms[0].what+")")
 		}
